@@ -249,10 +249,70 @@ type TypeErrors = Vec<Option<TypeError>>;
 pub(crate) struct TopLevelTypes<'a> {
     pub(crate) struct_names: HashSet<&'a String>,
     pub(crate) enum_names: HashSet<&'a String>,
+    pub(crate) const_defs: &'a HashMap<String, ConstDef>,
+}
+
+impl TopLevelTypes<'_> {
+    /// Checks that the identifier used as an array size is a constant of type `usize`.
+    fn check_array_size_const(&self, size: &str, meta: MetaInfo) -> Result<(), TypeErrors> {
+        let usize_ty = Type::Unsigned(UnsignedNumType::Usize);
+        let e = match self.const_defs.get(size) {
+            Some(const_def) if const_def.ty == usize_ty => return Ok(()),
+            Some(const_def) => TypeErrorEnum::UnexpectedType {
+                expected: usize_ty,
+                actual: const_def.ty.clone(),
+            },
+            None => TypeErrorEnum::UnknownIdentifier(size.to_string()),
+        };
+        Err(vec![Some(TypeError::new(e, meta))])
+    }
+
+    /// Checks that the const expr used as an array size only refers to `usize` constants.
+    fn check_array_size_const_expr(&self, size: &ConstExpr) -> Result<(), TypeErrors> {
+        let ConstExpr(expr, meta) = size;
+        match expr {
+            ConstExprEnum::NumUnsigned(_, _) => Ok(()),
+            ConstExprEnum::ConstExprIdent(ident) => self.check_array_size_const(ident, *meta),
+            ConstExprEnum::ExternalValue { .. } => {
+                let usize_ty = Type::Unsigned(UnsignedNumType::Usize);
+                if self
+                    .const_defs
+                    .values()
+                    .any(|def| def.ty == usize_ty && &def.value.0 == expr)
+                {
+                    Ok(())
+                } else {
+                    let e = TypeErrorEnum::UnknownIdentifier(expr.to_string());
+                    Err(vec![Some(TypeError::new(e, *meta))])
+                }
+            }
+            ConstExprEnum::Max(args) | ConstExprEnum::Min(args) => args
+                .iter()
+                .try_for_each(|arg| self.check_array_size_const_expr(arg)),
+            ConstExprEnum::Add(lhs, rhs) | ConstExprEnum::Sub(lhs, rhs) => {
+                self.check_array_size_const_expr(lhs)?;
+                self.check_array_size_const_expr(rhs)
+            }
+            ConstExprEnum::True | ConstExprEnum::False => {
+                let e = TypeErrorEnum::UnexpectedType {
+                    expected: Type::Unsigned(UnsignedNumType::Usize),
+                    actual: Type::Bool,
+                };
+                Err(vec![Some(TypeError::new(e, *meta))])
+            }
+            ConstExprEnum::NumSigned(_, ty) => {
+                let e = TypeErrorEnum::UnexpectedType {
+                    expected: Type::Unsigned(UnsignedNumType::Usize),
+                    actual: Type::Signed(*ty),
+                };
+                Err(vec![Some(TypeError::new(e, *meta))])
+            }
+        }
+    }
 }
 
 impl Type {
-    fn as_concrete_type(&self, types: &TopLevelTypes) -> Result<Type, TypeErrors> {
+    fn as_concrete_type(&self, types: &TopLevelTypes, meta: MetaInfo) -> Result<Type, TypeErrors> {
         let ty = match self {
             Type::Bool => Type::Bool,
             Type::Unsigned(n) => Type::Unsigned(*n),
@@ -260,27 +320,29 @@ impl Type {
             Type::Fn(args, ret) => {
                 let mut concrete_args = Vec::with_capacity(args.len());
                 for arg in args.iter() {
-                    concrete_args.push(arg.as_concrete_type(types)?);
+                    concrete_args.push(arg.as_concrete_type(types, meta)?);
                 }
-                let ret = ret.as_concrete_type(types)?;
+                let ret = ret.as_concrete_type(types, meta)?;
                 Type::Fn(concrete_args, Box::new(ret))
             }
             Type::Array(elem, size) => {
-                let elem = elem.as_concrete_type(types)?;
+                let elem = elem.as_concrete_type(types, meta)?;
                 Type::Array(Box::new(elem), *size)
             }
             Type::ArrayConst(elem, size) => {
-                let elem = elem.as_concrete_type(types)?;
+                let elem = elem.as_concrete_type(types, meta)?;
+                types.check_array_size_const(size, meta)?;
                 Type::ArrayConst(Box::new(elem), size.clone())
             }
             Type::ArrayConstExpr(elem, size_expr) => {
-                let elem = elem.as_concrete_type(types)?;
+                let elem = elem.as_concrete_type(types, meta)?;
+                types.check_array_size_const_expr(size_expr)?;
                 Type::ArrayConstExpr(Box::new(elem), size_expr.clone())
             }
             Type::Tuple(fields) => {
                 let mut concrete_fields = Vec::with_capacity(fields.len());
                 for field in fields.iter() {
-                    concrete_fields.push(field.as_concrete_type(types)?);
+                    concrete_fields.push(field.as_concrete_type(types, meta)?);
                 }
                 Type::Tuple(concrete_fields)
             }
@@ -422,6 +484,7 @@ impl UntypedProgram {
         let top_level_defs = TopLevelTypes {
             struct_names,
             enum_names,
+            const_defs: &self.const_defs,
         };
         let mut const_deps: HashMap<String, HashMap<String, (Type, MetaInfo)>> = HashMap::new();
         let mut const_types = HashMap::with_capacity(self.const_defs.len());
@@ -519,7 +582,7 @@ impl UntypedProgram {
             let meta = struct_def.meta;
             let mut fields = Vec::with_capacity(struct_def.fields.len());
             for (name, ty) in struct_def.fields.iter() {
-                match ty.as_concrete_type(&top_level_defs) {
+                match ty.as_concrete_type(&top_level_defs, meta) {
                     Ok(ty) => fields.push((name.clone(), ty)),
                     Err(e) => errors.extend(e),
                 }
@@ -536,7 +599,7 @@ impl UntypedProgram {
                     Variant::Tuple(variant_name, variant_fields) => {
                         let mut fields = Vec::with_capacity(variant_fields.len());
                         for field in variant_fields.iter() {
-                            match field.as_concrete_type(&top_level_defs) {
+                            match field.as_concrete_type(&top_level_defs, meta) {
                                 Ok(field) => fields.push(field),
                                 Err(e) => errors.extend(e),
                             }
@@ -633,7 +696,7 @@ impl UntypedFnDef {
             } else {
                 param_identifiers.insert(param.name.clone());
             }
-            match param.ty.as_concrete_type(top_level_defs) {
+            match param.ty.as_concrete_type(top_level_defs, self.meta) {
                 Ok(ty) => {
                     env.let_in_current_scope(
                         param.name.clone(),
@@ -657,7 +720,7 @@ impl UntypedFnDef {
         env.pop();
 
         match body {
-            Ok((mut body, _)) => match self.ty.as_concrete_type(top_level_defs) {
+            Ok((mut body, _)) => match self.ty.as_concrete_type(top_level_defs, self.meta) {
                 Ok(ret_ty) => {
                     if let Some(StmtEnum::Expr(ret_expr)) = body.last_mut().map(|s| &mut s.inner) {
                         if let Err(e) = check_type(ret_expr, &ret_ty) {
@@ -742,7 +805,7 @@ impl UntypedStmt {
                 match binding.type_check(top_level_defs, env, fns, defs) {
                     Ok(mut binding) => {
                         if let Some(ty) = ty {
-                            let ty = ty.as_concrete_type(top_level_defs)?;
+                            let ty = ty.as_concrete_type(top_level_defs, meta)?;
                             check_type(&mut binding, &ty)?;
                         }
                         let pattern =
@@ -764,7 +827,7 @@ impl UntypedStmt {
                         // the identifier as unknown:
                         env.let_in_current_scope(identifier.clone(), (None, Mutability::Mutable));
                         if let Some(ty) = ty {
-                            let ty = ty.as_concrete_type(top_level_defs)?;
+                            let ty = ty.as_concrete_type(top_level_defs, meta)?;
                             check_type(&mut binding, &ty)?;
                         }
                         fn constrain_to_i32(binding: &mut Expr<Type>) -> Result<(), TypeErrors> {
@@ -1414,7 +1477,7 @@ impl UntypedExpr {
                 }
             }
             ExprEnum::Cast(ty, expr) => {
-                let ty = ty.as_concrete_type(top_level_defs)?;
+                let ty = ty.as_concrete_type(top_level_defs, meta)?;
                 let expr = expr.type_check(top_level_defs, env, fns, defs)?;
                 expect_bool_or_num_type(&expr.ty, meta)?;
                 expect_bool_or_num_type(&ty, meta)?;
